@@ -25,6 +25,8 @@ const rule = "case = a registration program: a tree of Group(path, handlers, bod
 var assumptions = []string{
 	"AutoHead is documented for Get(): while it is on, GET is declared through Get / Combo.Get / Any only (whether Route(\"GET\") and Routes(\"GET\") should add HEAD is not stated)",
 	"route paths of one program are distinct, so every registration is valid",
+	"a declaration that stands for several flat registrations and is refused half way stands as far as its flat expansion got and no further (Get under AutoHead = GET, then HEAD): the property says 'exactly like the flat list', and a flat list is registered entry by entry",
+	"pieces that are each harmless but concatenate to a route the router must refuse (C08) are refused like the flat registration, and the enclosing scope is restored when a group is left through that panic",
 }
 
 func TestMain(m *testing.M) { evid.Main(m, "C11", rule, assumptions) }
@@ -50,6 +52,11 @@ type Case struct {
 	// inner segment, "/?bj" + "/leaf" an optional segment that is not the last.
 	// The flat registration of the concatenated path is refused, so this is too.
 	BadJoin int `json:"ill_formed_concatenation,omitempty"`
+	// DupGet (1..2): after the program, Get("/dg") is declared under AutoHead
+	// although (1) GET /dg or (2) HEAD /dg exists already: the declaration is
+	// refused like its flat expansion [GET /dg, HEAD /dg], of which everything in
+	// front of the refused entry stands and nothing behind it.
+	DupGet int `json:"get_under_autohead_on_a_taken_path,omitempty"`
 }
 
 func badJoin(k int) (nodes []Node, flat string) {
@@ -364,6 +371,48 @@ func checkCase(c Case) (out evid.Outcome) {
 		}
 		out.NonTrivial = true
 		out.Classes = append(out.Classes, "ill-formed-concatenation-refused")
+	}
+	if c.DupGet > 0 {
+		refused := func(f func()) (r interface{}) {
+			defer func() { r = recover() }()
+			f()
+			return nil
+		}
+		pRan, qRan := "", ""
+		ph := func(tag string) flamego.Handler { return func() { pRan += tag } }
+		qh := func(tag string) []flamego.Handler { return []flamego.Handler{func() { qRan += tag }} }
+		first := "GET"
+		if c.DupGet == 2 {
+			first = "HEAD"
+		}
+		p.f.AutoHead(false)
+		p.f.Route(first, "/dg", []flamego.Handler{ph("a")})
+		p.f.AutoHead(true)
+		pRefused := refused(func() { p.f.Get("/dg", ph("b")) })
+		p.f.AutoHead(false)
+		q.f.Route(first, "/dg", qh("a"))
+		var qRefused interface{}
+		for _, m := range []string{"GET", "HEAD"} {
+			if qRefused = refused(func() { q.f.Route(m, "/dg", qh("b")) }); qRefused != nil {
+				break
+			}
+		}
+		if qRefused == nil {
+			panic("harness: the flat expansion of the second declaration was accepted")
+		}
+		if pRefused == nil {
+			return evid.Fail("duplicate-accepted", "Get(\"/dg\") under AutoHead was accepted although %s /dg exists; program %s", first, js(c))
+		}
+		for _, m := range []string{"GET", "HEAD"} {
+			pRan, qRan = "", ""
+			p.f.ServeHTTP(rt.NewSpy(), rt.NewRequest(m, "/dg", nil))
+			q.f.ServeHTTP(rt.NewSpy(), rt.NewRequest(m, "/dg", nil))
+			if pRan != qRan {
+				return evid.Fail("refused-declaration-residue", "%s /dg declared first, then Get(\"/dg\") under AutoHead (refused): %s /dg runs %q, after the flat expansion [GET /dg, HEAD /dg] (refused at its first taken entry) it runs %q; program %s", first, m, pRan, qRan, js(c))
+			}
+		}
+		out.NonTrivial = true
+		out.Classes = append(out.Classes, "get-under-autohead-on-a-taken-path")
 	}
 	for _, fr := range flat {
 		var hs []flamego.Handler
@@ -735,6 +784,9 @@ func TestProp(t *testing.T) {
 		c := Case{Program: g.nodes(t, 0, "", false)}
 		if rapid.IntRange(0, 5).Draw(t, "badjoin") == 0 {
 			c.BadJoin = rapid.IntRange(1, 3).Draw(t, "badjoink")
+		}
+		if rapid.IntRange(0, 7).Draw(t, "dupget") == 0 {
+			c.DupGet = rapid.IntRange(1, 2).Draw(t, "dupgetk")
 		}
 		evid.Run(t, "program", c, func() evid.Outcome { return checkCase(c) })
 	})
